@@ -480,6 +480,15 @@ def c11_inputs(thorough, rnd):
         "len-target-before": "root packet P { A a, u16 l @lengthOf(a), }\npacket A { u8 x, }\n",
         "repeat-match-like": "root packet P { u8 k, repeat A, match k as b { 1 : A, }, }\npacket A { u8 x, }\n",
         "meta-typed-len": "MetaData M { u16 L `d`, }\nroot packet P { L @lengthOf(b), A b, }\npacket A { u8 x, }\n",
+        # identifiers at the edges of the IDENTIFIER rule ([a-zA-Z_][a-zA-Z_0-9]*): nothing but underscores, leading / trailing ones
+        "ident-underscore-fields": "root packet P { u8 _ `r`, char[4] __, u16 _1, u8 a_, }\n",
+        "ident-underscore-packets": "root packet _ { u8 a, __ b, }\npacket __ { u8 _, }\n",
+        "ident-underscore-meta": "MetaData _ { u8 _m `d`, _m __ `d`, }\nroot packet P { _m, __, }\n",
+        # MetaData reference entries that can never get a type: a cycle, an entry naming itself, a reference to a reference
+        # whose own target does not exist
+        "meta-alias-cycle": "MetaData M { A B `d`, B A `d`, }\nroot packet P { A, }\n",
+        "meta-alias-self": "MetaData M { X X `d`, }\nroot packet P { X, }\n",
+        "meta-alias-of-dangling-alias": "MetaData M { Amount Price `d`, Decimal Amount `d`, }\nroot packet P { Price, }\n",
         "option-value-forms": "options { A = u8; B = \"s\"; C = 12; D = '0'; E = true; F = char[4]; G = string }\nroot packet P { u8 a, }\n",
     }
     out += sorted(opt.items())
